@@ -279,6 +279,10 @@ func verifyServerExtensions(copts *compressionOptions, h http.Header) (*compress
 	_copts := *copts
 	copts = &_copts
 
+	if deflateParamsDuplicated(ext.params) {
+		return nil, fmt.Errorf("duplicated permessage-deflate parameter from server: %+v", ext.params)
+	}
+
 	for _, p := range ext.params {
 		switch p {
 		case "client_no_context_takeover":
@@ -289,6 +293,9 @@ func verifyServerExtensions(copts *compressionOptions, h http.Header) (*compress
 			continue
 		}
 		if strings.HasPrefix(p, "server_max_window_bits=") {
+			if !validDeflateWindowBits(strings.TrimPrefix(p, "server_max_window_bits=")) {
+				return nil, fmt.Errorf("invalid permessage-deflate parameter: %q", p)
+			}
 			// We can't adjust the deflate window, but decoding with a larger window is acceptable.
 			continue
 		}
